@@ -467,4 +467,45 @@ example : (run demo [.new .guideline, .insert 4 8]).ownerOf 8 = some 4 ∧
 example : let h := run demo [.newLayer 0 "back", .newGlyph 8 "A", .new .contour, .insert 9 10, .delLayer 0 "back"]
     h.ownerOf 8 = none ∧ h.ownerOf 9 = none ∧ h.ownerOf 10 = none ∧ fontOf h 10 = none ∧ 8 ∉ h.kidsOf 1 := by decide
 
+/-! ## 6. Known finding F37: a glyph deleted from a layer that has no font keeps answering that layer -/
+
+/-- The full statement: whenever a layer lets go of a glyph object it lists and that points to it — `killGlyph`
+is `Layer._deleteGlyph` / `_insertGlyph` over it, with the `if glyph.dispatcher is None: return` of the code —
+the glyph's `layer` accessor answers nothing afterwards. -/
+def RemovedGlyphForgetsLayer : Prop :=
+  ∀ (h : Heap) (l g : Id) (ng : Node), h.get g = some ng → ng.kind = .glyph → ng.pLayer = some l → g ∈ h.kidsOf l →
+    layerOf (killGlyph h l g) g = none
+
+/-- a stand-alone `Layer()` (object 0) with one glyph (object 1) -/
+def fontless : Heap := { nodes := [{ kind := .layer, kids := [1] }, { kind := .glyph, pLayer := some 0 }] }
+
+/-- (such a heap is outside `Wired`: the invariant asks a glyph in a layer to store a layer set and a font) -/
+example : fontless.storedLayer 1 = some 0 ∧ fontless.storedLayerSet 1 = none ∧ dispOf fontless 1 = none := by decide
+
+/-- … is violated by the code as it is: without a font the glyph has no dispatcher, nothing is ended. -/
+theorem removed_glyph_forgets_layer_violated : ¬ RemovedGlyphForgetsLayer := by
+  intro hh
+  have := hh fontless 0 1 { kind := .glyph, pLayer := some 0 } rfl rfl rfl (by decide)
+  revert this
+  decide
+
+/-- What holds: when the layer belongs to a font (`liveLayer`) — `delGlyph_detaches`, `newGlyph_replaces`. -/
+theorem removed_glyph_forgets_layer_partial (h : Heap) (w : Wired h) (l g : Id) (name : String)
+    (hl : liveLayer h l = true) (hf : h.findNamed l .glyph name = some g) :
+    layerOf (step h (.delGlyph l name)).1 g = none := by
+  obtain ⟨_, d, _⟩ := delGlyph_detaches h w l g name hl hf
+  have w' := wired_preserved h (.delGlyph l name) w
+  have ho := d g (Or.inl rfl)
+  obtain ⟨hg, kg⟩ := findNamed_some hf
+  have kg' : (step h (.delGlyph l name)).1.kindOf g = some .glyph := by
+    obtain ⟨kl, s, hs⟩ := liveLayer_spec hl
+    obtain ⟨f, c⟩ := layerCtx_of_live w.toStruct kl hs
+    obtain ⟨ng, eg, kng, hog, hd⟩ := glyph_of_live_layer w c hg kg
+    have e : step h (.delGlyph l name) = (mark (killGlyph h l g) l, .ok) := by simp [step, kl, hl, hf]
+    rw [e, kindOf_mark]
+    exact kindOf_killGlyph w eg kng hog kg
+  obtain ⟨n', e', k'⟩ := kindOf_some kg'
+  have lo : owner n' = none := by rw [← ownerOf_eq e']; exact ho
+  exact (detached_answers_nothing _ w' g n' e' (by rw [k']; simp) lo).2.1
+
 end DefconModel.Props.C11
